@@ -387,8 +387,16 @@ PROPS = {
                 "with n*m <= 10^6 (thorough 4*10^6); EVERY pair is evaluated on (A,B), (notA,B), (A,notB), (notA,notB) through Invert() on clones, "
                 "through single-loop Polygons, ContainsNested and compareBoundary. The st: token records the branches the parallel index walk "
                 "visits (edge-free-cell branch, cellCrossesAnySubcell). nest: laminar loop families (depth <= 5, siblings, cells sharing one "
-                "vertex) in every permutation (<= 4 loops) or 6 random orders. prel: polygons with holes / islands / several shells and their "
-                "Polygon.Invert() complements. non-trivial = rel line whose two loops both have >= 3 vertices, nest / prel lines; "
+                "vertex; towers = concentric spine of up to 6 levels with sibling loops / children / grandchildren in every ring, or loops through "
+                "every second vertex of their parent) in every permutation (<= 4 loops) or 6 random orders. prel: polygons with holes / islands / "
+                "several shells and their Polygon.Invert() complements; MULTI-LEVEL polygons (towers, nesting depth up to 5 on the spine and up to 11 "
+                "with vertex-sharing inscribed loops, loops handed over in scrambled order) against a polygon B placed systematically in EVERY ring "
+                "(outside, between spine loops k and k+1, innermost disc) in 12 ways: concentric loop enclosing all inner loops, small disc enclosing "
+                "nothing, disc straddling a spine loop, annulus within one ring / across rings / across a whole hole-or-island ring, B = spine loops "
+                "k..k2 of A (shared loops), B = every second vertex of a spine loop (shared vertices), B itself a tower interleaved with A, B around / "
+                "inside a sibling (between sibling, child and grandchild), B sharing a sibling loop, several shells, ring k exactly (both boundaries "
+                "shared): each (levels 4 and 6) x ring x placement once per run plus random ones, both argument orders, all four complement "
+                "combinations; every Invert() result is checked (depths = exact containment counts, pre-order). non-trivial = rel line whose two loops both have >= 3 vertices, nest / prel lines; "
                 "distinct = distinct (op, arguments)",
         "nontrivial": lambda l: (l.startswith("rel ") and l.split(" ")[1].count(";") >= 2 and l.split(" ")[2].count(";") >= 2)
                                 or l.startswith("nest ") or l.startswith("prel "),
